@@ -3,7 +3,7 @@
 # Rebuilds from /repo's working tree; objects are cached by a hash of all inputs.
 set -e
 H=$1; V=${2:-P}
-ROOT=/verif
+ROOT="$(cd "$(dirname "$0")" && pwd)"
 REPO=${XSIM_REPO:-/repo}
 BINDIR=${XSIM_SCRATCH:-$ROOT}/bin
 mkdir -p $ROOT/build/cache $BINDIR
